@@ -9,6 +9,8 @@ import CoapVerif.Lemmas.BlockNet
 import CoapVerif.Lemmas.BlockNetOnce
 import CoapVerif.Lemmas.BlockTok
 import CoapVerif.Lemmas.BlockAdl
+import CoapVerif.Lemmas.BlockNetTok
+import CoapVerif.Lemmas.BlockNetTok1
 /-
 C09 — block-wise transfer: the sender's body arrives intact, once, or the transfer fails explicitly.
 
@@ -1347,5 +1349,203 @@ example : adlExitReq 1152 4 2 11 none 0 6000 1 1 = .failSearch ∧ adlExitReq 11
 example : adlRun [.call 1 (.linked 6), .call 2 (.linked 6), .call 1 .released, .expire, .call 3 .failNew, .free] =
     ({ xmits := [], rel := [3, 1, 2, 0] }, 4) := by decide
 
+/-! ## Tokens in the composed Block2 system (round R09c, `Model/BlockNetTok.lean`)
+
+`b2tStep` = `b2Step` with a token on every datagram (the application's on the GET, `STATE_TOKEN_FULL(state_token,
+++retry_counter)` on every follow-up request, echoed by the server), the client's lg_crcv LIST with the lookup by token,
+`coap_block_new_lg_crcv`'s state token, `coap_send`'s replacement of an lg_crcv with the same application token, and the
+token `rcvd` carries when the handler sees it.  `hToks` records every handler call: the token shown and (ghost) the
+`STATE_TOKEN_BASE`s of the lg_crcvs released BEFORE that call. -/
+
+/-- C09 "handlers only ever see the application's own token, never one libcoap substituted on the wire", composed
+system, EVERY schedule (any loss / duplication / reordering of requests and responses, `sent` matched or not, time-outs
+of any lg_crcv and of the lg_xmit, repeated GETs with the same token), NO hypothesis on parameters, tokens or counters
+(`tx_token` and the 16-bit retry counter may wrap): as long as no lg_crcv of the session has been released, every
+response-handler call carries the application's token. -/
+theorem app_token_only_block2_composed (P : B2Par) (app : Bytes) (evs : List B2TEvent) :
+    ∀ x ∈ (b2tRun P app {} evs).hToks, x.2 = [] → x.1 = app := by
+  intro x hx hrel
+  rcases (b2tRun_inv P app evs {} (runInvT_init app)).shown x hx with h | h
+  · exact h
+  · rw [hrel] at h; cases h
+
+/-- …and the complement is exactly the open finding `c09-late-message-raw-token`: a handler call that shows a token other
+than the application's shows a token whose `STATE_TOKEN_BASE` is that of an lg_crcv that had been RELEASED before the
+call (completed, failed, timed out or replaced) — never one of a transfer whose state still exists. -/
+theorem raw_token_only_after_release (P : B2Par) (app : Bytes) (evs : List B2TEvent) :
+    ∀ x ∈ (b2tRun P app {} evs).hToks, x.1 ≠ app → stateTokenBase (decodeVar8 x.1) ∈ x.2 := by
+  intro x hx hne
+  rcases (b2tRun_inv P app evs {} (runInvT_init app)).shown x hx with h | h
+  · exact absurd h hne
+  · exact h
+
+/-- the same for ONE call in ANY session state satisfying the invariant (any number of lg_crcvs, e.g. other transfers'):
+a matched lg_crcv ⇒ its `app_token` is shown; the token shown is the application's or belongs to a released lg_crcv -/
+theorem handler_token_step (single : Bool) (cap : Nat) (junk : UInt8) (app : Bytes) (c : CliT) (sent : Bool)
+    (tok : Bytes) (r : Resp) (hent : ∀ e ∈ c.crcvs, AppOK app c.released e) (htok : TokOK app c tok) :
+    let res := crcvStepT single cap junk c (if sent then some tok else none) tok r
+    callsHandler res.2.out = true → res.2.shown = app ∨ stateTokenBase (decodeVar8 res.2.shown) ∈ c.released :=
+  (crcvStepT_spec single cap junk app c (if sent then some tok else none) tok r hent htok
+    (by intro st hst; split at hst <;> simp at hst; exact Or.inl hst.symm)).2.2.1
+
+/-- the hypotheses of `handler_token_step` are satisfiable on a non-trivial state: two lg_crcvs — one of the application's
+request, one built from a late message of a released transfer (base 3) — and a follow-up response of the first -/
+example :
+    let c : CliT := { crcvs := [{ appTok := [0xa1], state := stateTokenFull 7 1, retry := 4, lg := {} },
+                                { appTok := encodeVar8 (stateTokenFull 3 2), state := stateTokenFull 9 1, retry := 1, lg := {} }],
+                      txTok := 9, released := [3] }
+    (∀ e ∈ c.crcvs, AppOK [0xa1] c.released e) ∧ TokOK [0xa1] c (encodeVar8 (stateTokenFull 7 4)) := by
+  refine ⟨?_, Or.inr (Or.inl ?_)⟩
+  · intro e he
+    simp only [List.mem_cons, List.not_mem_nil, or_false] at he
+    rcases he with rfl | rfl
+    · exact Or.inl rfl
+    · exact Or.inr (by rw [base_wire 3 2 (by decide)]; decide)
+  · rw [base_wire 7 4 (by decide)]
+    decide
+
+/-- libcoap reads back from its own tokens the state token they were generated from (any retry count) -/
+theorem wire_token_roundtrip (st r : Nat) (hr : r < 65536) :
+    decodeVar8 (encodeVar8 (stateTokenFull st r)) = stateTokenFull st r ∧
+    stateTokenBase (decodeVar8 (encodeVar8 (stateTokenFull st r))) = stateTokenBase st :=
+  ⟨decode_encode8 _ (full_lt st r), base_wire st r hr⟩
+
+/-- Lean witness of the open finding `c09-late-message-raw-token` in the composed system: block 1 of a transfer is
+answered under the substituted token 0x200000000001; the lg_crcv times out; the (duplicated) response, matched to a
+request that is still queued, reaches the handler as "random access" with the wire token — and base 1 had been released.
+Without the time-out the same schedule shows the application's token only. -/
+example :
+    let app : Bytes := [0xa1, 0xa2]
+    let evs : List B2TEvent := [.appGet 0, .reqArrives 0, .rspArrives 0 true, .reqArrives 1, .cliExpire 0, .rspArrives 1 true]
+    let s := b2tRun (exPar false) app {} evs
+    s.reqToks = [app, [0x20, 0, 0, 0, 0, 1]] ∧ s.hToks = [(app, []), ([0x20, 0, 0, 0, 0, 1], [1])] := by
+  decide +kernel
+example :
+    let app : Bytes := [0xa1, 0xa2]
+    let evs : List B2TEvent := [.appGet 0, .reqArrives 0, .rspArrives 0 true, .reqArrives 1, .rspArrives 1 true,
+      .rspArrives 1 true, .reqArrives 2, .rspArrives 2 false]
+    let s := b2tRun (exPar false) app {} evs
+    s.reqToks = [app, [0x20, 0, 0, 0, 0, 1], [0x30, 0, 0, 0, 0, 1]] ∧ s.hToks.map (·.1) = [app, app, app] ∧
+    s.cli.crcvs.length = 0 ∧ s.cli.released = [1] := by
+  decide +kernel
+
+/-- `never_wrong_body_block2_composed_partial` for the system WITH tokens and the lg_crcv LIST (`b2tStep`): there a
+response only meets the lg_crcv its token selects (state-token base or application token, first match in list order),
+a response whose token matches none is treated as on a session without lg_crcv although others exist (dropped /
+"random access" / a NEW lg_crcv prepended next to the old ones), `coap_send` replaces the first lg_crcv with the
+application's token only, any single lg_crcv may time out.  EVERY schedule, no hypothesis on datagrams or tokens: every
+handler output is the server's body / an exact slice, and a block response is never passed on as a plain one.
+Invariant `B2TInv` = `B2Inv` with every lg_crcv of the list (and none) in the client's place; `cliOnRsp_inv` /
+`srvOnReq_inv` are re-used per element (`crcvStepT_lg`: the step IS `crcvStep` on the matched element or on none).
+Same exclusions as the `_partial` theorem except "tokens" (single-message response bodies, application-built answers
+to follow-up requests without lg_xmit, timers). -/
+theorem never_wrong_body_block2_composed_tokens (P : B2Par) (hP : B2ParOK P) (app : Bytes) (evs : List B2TEvent) :
+    ∀ o, o ∈ (b2tRun P app {} evs).net.outs →
+      (∀ d l, o = CrcvOut.body d l → P.single = true ∧ d.take l = P.body ∧ l = P.body.length) ∧
+      (∀ off p total nx, o = CrcvOut.block off p total nx →
+        P.single = false ∧ ∃ k szx, k < nBlocks P.body.length szx ∧ off = k * chunkSize szx ∧ p = slice P.body szx k) ∧
+      (∀ off p total, o = CrcvOut.last off p total →
+        P.single = false ∧ ∃ k szx, k < nBlocks P.body.length szx ∧ off = k * chunkSize szx ∧ p = slice P.body szx k) ∧
+      (∀ off p total, o = CrcvOut.randomAccess off p total →
+        ∃ k szx, k < nBlocks P.body.length szx ∧ off = k * chunkSize szx ∧ p = slice P.body szx k) ∧
+      (∀ p, o ≠ CrcvOut.plain p) :=
+  (b2tRun_body_inv P hP app evs {} (b2TInv_init P)).1.outs
+
+/-- two lg_crcvs at once (an old one whose follow-up response is still under way when the application asks again and the
+new GET's first response arrives matched): each response goes to the lg_crcv its token selects; both bodies complete -/
+example :
+    let app : Bytes := [0xa1, 0xa2]
+    let evs : List B2TEvent := [.appGet 0, .reqArrives 0, .rspArrives 0 true, .reqArrives 1, .cliExpire 0,
+      .rspArrives 0 true, .rspArrives 1 true]
+    let s := b2tRun (exPar true) app {} evs
+    s.cli.crcvs.map (fun e => (e.appTok, stateTokenBase e.state, e.retry)) = [(app, 2, 2)] ∧
+    s.net.outs = [.next 1 0, .next 1 0, .randomAccess 16 ((exPar true).body.drop 16 |>.take 16) 33] ∧
+    s.hToks = [([0x20, 0, 0, 0, 0, 1], [1])] := by
+  decide +kernel
+
+/-! ## Tokens in the composed Block1 system (round R09c, `Model/BlockNetTok1.lean`)
+
+`b1tStep` = `b1Step` with a token on every datagram (the application's on the first request,
+`STATE_TOKEN_FULL(lg_xmit->b.b1.state_token, ++count)` on every follow-up request, echoed by the server), the client's
+lg_xmit with application token / state token / count and its `lg_crcv` pointer, the lg_crcv `coap_send` sets up and
+links for the PUT, and `handle_response()`: `coap_handle_response_send_block` (lookup by token; `lg_xmit_finished:`
+restores the token only `if (!lg_crcv)`), then `coap_handle_response_get_block` (lookup by token, token restored, lg_crcv
+released), then the handler. -/
+
+/-- C09 "handlers only ever see the application's own token", Block1 direction, composed system, EVERY schedule (loss /
+duplication / reordering of requests and responses, repeated PUTs with the same token, time-outs of the lg_xmit, of the
+lg_crcv and of the server's lg_srcv at any moment, Confirmable or Non-confirmable, single-message bodies included), NO
+hypothesis: as long as no lg_xmit / lg_crcv of the session has been released, every response-handler call carries the
+application's token. -/
+theorem app_token_only_block1_composed (P : B1Par) (app : Bytes) (non : Bool) (evs : List B1TEvent) :
+    ∀ x ∈ (b1tRun P app non {} evs).hToks, x.2 = [] → x.1 = app := by
+  intro x hx hrel
+  rcases (b1tRun_inv P app non evs {} (t1Inv_init app)).shown x hx with h | h
+  · exact h
+  · rw [hrel] at h; cases h
+
+/-- the complement = the open finding `c09-late-message-raw-token` for PUT: a handler call that shows a token other than
+the application's shows one whose `STATE_TOKEN_BASE` is that of an lg_xmit / lg_crcv RELEASED before the response was
+dispatched (not merely before the handler ran: the lg_xmit that `lg_xmit_finished:` deletes on the way does not count —
+invariant `Cli1Inv.link`: an lg_xmit with `lg_crcv` set has an lg_crcv with the same state-token base, so
+coap_handle_response_get_block finds it and restores the token). -/
+theorem raw_token_only_after_release_block1 (P : B1Par) (app : Bytes) (non : Bool) (evs : List B1TEvent) :
+    ∀ x ∈ (b1tRun P app non {} evs).hToks, x.1 ≠ app → stateTokenBase (decodeVar8 x.1) ∈ x.2 := by
+  intro x hx hne
+  rcases (b1tRun_inv P app non evs {} (t1Inv_init app)).shown x hx with h | h
+  · exact absurd h hne
+  · exact h
+
+/-- ONE response dispatched by `handle_response()` in ANY session state satisfying the invariant -/
+theorem handler_token_step_block1 (room : Nat) (app : Bytes) (c : Cli1T) (tok : Bytes) (ok : Bool)
+    (blk : Option (Nat × Nat)) (hinv : Cli1Inv app c) (htok : Tok1OK app c tok) :
+    (rspStep1T room c tok ok blk).2.handler = true →
+      (rspStep1T room c tok ok blk).2.shown = app ∨
+      stateTokenBase (decodeVar8 (rspStep1T room c tok ok blk).2.shown) ∈ c.released :=
+  (rspStep1T_spec room app c tok ok blk hinv htok).2.2.2
+
+/-- the hypotheses of `handler_token_step_block1` are satisfiable on a non-trivial state: a linked lg_xmit + lg_crcv -/
+example : Cli1Inv [0xa1] { xmit := some { appTok := [0xa1], state := stateTokenFull 7 1, count := 3,
+                                            x := { data := [1, 2, 3], blkSize := 0 }, link := true },
+                           crcv := some { appTok := [0xa1], state := stateTokenFull 7 1, retry := 1 } } ∧
+    Tok1OK [0xa1] { xmit := some { appTok := [0xa1], state := stateTokenFull 7 1, count := 3,
+                                    x := { data := [1, 2, 3], blkSize := 0 }, link := true } }
+      (encodeVar8 (stateTokenFull 7 3)) :=
+  ⟨⟨fun xm h => (by cases h; rfl), fun cr h => (by cases h; rfl), fun xm h _ => (by cases h; exact ⟨_, rfl, rfl⟩)⟩,
+   Or.inr (Or.inl (Or.inl ⟨_, rfl, base_wire_any 7 3⟩))⟩
+
+/-- Lean witnesses (200-byte PUT, 32-byte blocks): a complete transfer shows the application's token with nothing
+released; the second variant of the server's final answer arriving afterwards (a duplicated final / error response — the
+open finding's class) shows the wire token 0x600000000002, base 2 released (lg_xmit and lg_crcv) -/
+example :
+    let app : Bytes := [0xa1, 0xa2]
+    let evs : List B1TEvent := [.appPut, .reqArrives 0, .rspArrives 0, .reqArrives 1, .rspArrives 1, .reqArrives 2,
+      .rspArrives 2, .reqArrives 3, .rspArrives 3, .reqArrives 4, .rspArrives 4, .reqArrives 5, .rspArrives 5, .rspArrives 6]
+    let s := b1tRun exPar1 app true {} evs
+    s.reqToks = [app, [0x20, 0, 0, 0, 0, 2], [0x30, 0, 0, 0, 0, 2], [0x40, 0, 0, 0, 0, 2], [0x50, 0, 0, 0, 0, 2],
+      [0x60, 0, 0, 0, 0, 2]] ∧ s.hToks = [(app, []), ([0x60, 0, 0, 0, 0, 2], [2, 2])] ∧ s.net.outs.length = 6 := by
+  decide +kernel
+/-- … and both time-outs in mid-transfer: the 2.31 for block 2 is handed to the handler under the wire token -/
+example :
+    let app : Bytes := [0xa1, 0xa2]
+    let evs : List B1TEvent := [.appPut, .reqArrives 0, .rspArrives 0, .reqArrives 1, .xmitExpire, .crcvExpire, .rspArrives 1]
+    (b1tRun exPar1 app true {} evs).hToks = [([0x20, 0, 0, 0, 0, 2], [2, 2])] := by
+  decide +kernel
+
+/-- `never_wrong_body_block1_composed_partial` for the system WITH tokens (`b1tStep`): every step of it is a (possibly
+empty) sequence of `b1Step` steps on the state underneath (`b1t_simulated`: a response whose token selects the lg_xmit =
+`rspArrives`; one that selects none = no step; a PUT whose body fits one message = `cliExpire` (the supersede search) then
+`appPut`; lg_xmit time-out = `cliExpire`; lg_crcv time-out = no step), so for EVERY schedule whatever the server hands to
+its application is exactly the client's body with its exact length.  Remaining exclusions as for the `_partial` theorem
+minus "tokens". -/
+theorem never_wrong_body_block1_composed_tokens (P : B1Par) (hP : B1ParOK P) (app : Bytes) (non : Bool)
+    (evs : List B1TEvent) :
+    ∀ o, o ∈ (b1tRun P app non {} evs).net.outs → ∀ b l, o = SrcvOut.deliver b l → b = P.body ∧ l = P.body.length := by
+  obtain ⟨evs', h⟩ := b1tRun_simulated P app non evs {} (t1Inv_init app)
+  have houts : (absB1 (b1tRun P app non {} evs)).outs = (evs'.foldl (b1Step P) (absB1 {})).outs := congrArg B1Sys.outs h
+  have houts' : (b1tRun P app non {} evs).net.outs = (evs'.foldl (b1Step P) {}).outs := houts
+  intro o ho
+  rw [houts'] at ho
+  exact never_wrong_body_block1_composed_partial P hP evs' o ho
 
 end Coap.C09
